@@ -39,12 +39,19 @@ def target_source(name):
     return "\n".join(lines)
 
 
+# fixture modules that are stub targets themselves (functions of `pkg.utils` taking classes of `utils` and the other way round ...)
+ALSO_TARGETS = {"utils.py": "utils", "pkg/utils.py": "pkg.utils", "foo.py": "foo", "barfoo.py": "barfoo", "pkg/__init__.py": "pkg", "pkg/typing.py": "pkg.typing",
+                "mytyping.py": "mytyping"}
+TARGET_PAIRS = [("pkg.utils", "utils"), ("utils", "pkg.utils"), ("foo", "barfoo"), ("barfoo", "foo"), ("pkg", "pkg.utils"), ("pkg.utils", "pkg"),
+                ("pkg.typing", "mytyping"), ("mytyping", "pkg.typing")]
+
+
 def write_fixture(d, tname):
     for rel, src in FILES.items():
         p = os.path.join(d, rel)
         os.makedirs(os.path.dirname(p), exist_ok=True)
         if not os.path.exists(p):
-            open(p, "w").write(src)
+            open(p, "w").write(src + ("\n\n" + target_source(rel) if rel in ALSO_TARGETS else ""))
     open(os.path.join(d, tname + ".py"), "w").write(target_source(tname))
 
 
@@ -410,11 +417,22 @@ def work(p):
             spec_b = [x for x in spec_b if not any("Own" in str(v) or "OInner" in str(v) for v in list(x[1].values()) + [x[2], x[3]])]
             if spec_b:
                 co = (tmod_b, spec_b)
-        judge_build(res, tmod, spec, k, stratum, {"spec": spec, "k": k, "stratum": stratum, "co_spec": co[1] if co else None,
-                                                     "via_cli": co is None and rng.random() < 0.12}, co=co)
+        tm1 = tmod
+        pair = None
+        if co is not None and rng.random() < 0.4:
+            # the two modules are fixture modules whose names are dotted / textual suffixes of one another, each taking the other's classes
+            spec = [x for x in spec if not any("Own" in str(v) or "OInner" in str(v) for v in list(x[1].values()) + [x[2], x[3]] + [str(x[4:])])]
+            if not spec:
+                continue
+            pair = TARGET_PAIRS[rng.randrange(len(TARGET_PAIRS))]
+            tm1, co = sys.modules[pair[0]], (sys.modules[pair[1]], co[1])
+            res.count("builds_for_target_modules_named_like_imported_ones")
+        judge_build(res, tm1, spec, k, stratum, {"spec": spec, "k": k, "stratum": stratum, "co_spec": co[1] if co else None, "targets": pair,
+                                                 "via_cli": co is None and rng.random() < 0.12}, co=co)
     for pin in p.get("pinned", ()):
-        judge_build(res, tmod, pin["spec"], pin["k"], pin.get("stratum", "main"), {"pinned": pin.get("name")},
-                    co=(tmod_b, [tuple(x) for x in pin["co"]]) if pin.get("co") else None)
+        tg = pin.get("targets")
+        judge_build(res, sys.modules[tg[0]] if tg else tmod, pin["spec"], pin["k"], pin.get("stratum", "main"), {"pinned": pin.get("name")},
+                    co=(sys.modules[tg[1]] if tg else tmod_b, [tuple(x) for x in pin["co"]]) if pin.get("co") else None)
         res.count("pinned_witnesses")
     sys.path.remove(d)
     res.count("source_annotations_handed_to_renderer", _ANN_COUNT[0])
@@ -431,6 +449,10 @@ PINNED = [
     {"name": "package-and-its-submodule", "k": 0, "spec": [("f0", {"a": "pTop", "b": "puP"}, "Dict[pTop, List[puP]]"), ("f1", {"a": "puP"}, "pTop")]},
     {"name": "typeddict-of-nested-class-method-needs-import", "k": 3, "stratum": "tdbody", "spec": [("Kls.Nest.nm", {"a": "TD({'x': oRare}, {})"}, None)]},
     {"name": "private-top-level-module", "k": 0, "spec": [("f0", {"a": "pvHidden"}, "List[pvHidden]")]},
+    {"name": "target-named-like-an-imported-module", "k": 0, "targets": ["pkg.utils", "utils"], "spec": [("f0", {"a": "uB", "b": "puP"}, "List[uU]")],
+     "co": [("f0", {"a": "puP", "b": "uB"}, "Dict[str, puP]")]},
+    {"name": "target-named-like-an-imported-module-typeddict", "k": 3, "stratum": "tdbody", "targets": ["utils", "pkg.utils"],
+     "spec": [("f0", {"a": "TD({'x': puP}, {})"}, "uB")], "co": [("f1", {"b": "TD({'y': uU}, {})"}, None)]},
     {"name": "typeddict-yielded", "k": 3, "spec": [("g0", {"a": "int"}, None, "TD({'x': int}, {})")]},
 ]
 
@@ -444,6 +466,7 @@ def run(ck):
         ck.merge(r)
     ck.need("annotations_judged", 5000)
     ck.need("two_module_builds", 100)
+    ck.need("builds_for_target_modules_named_like_imported_ones", 100)
     ck.need("source_annotations_handed_to_renderer", 300)
     ck.need("none_default_positions_judged", 300)
     ck.need("builds_through_store_and_cli", 200)
@@ -466,6 +489,7 @@ def replay(ck, path):
     for c in data.get("cases", []):
         w = c.get("witness") or {}
         if "spec" in w:
-            pins.append({"spec": [tuple(x) for x in w["spec"]], "k": w["k"], "stratum": w.get("stratum", "main"), "name": "replay", "co": w.get("co_spec")})
+            pins.append({"spec": [tuple(x) for x in w["spec"]], "k": w["k"], "stratum": w.get("stratum", "main"), "name": "replay", "co": w.get("co_spec"),
+                         "targets": w.get("targets")})
     ck.merge(work({"id": "replay", "seed": "replay", "builds": 0, "pinned": pins}))
     return ck.finish(rule="replay of " + path)
